@@ -254,26 +254,27 @@ pub fn stmt_params(s: &Stmt, d: Dialect) -> Col {
                     expr_params(w, out.at("where"));
                 }
             }
+            // RETURNING precedes ORDER BY / LIMIT (the only engine with both, SQLite, requires it)
+            returning_params(&u.returning, d, &mut out);
             for o in &u.orders {
                 order_params(o, d, out.at("order-by"));
             }
             if let Some(l) = u.limit {
                 out.at("limit").push(PV::U64(l));
             }
-            returning_params(&u.returning, d, &mut out);
         }
         Stmt::Delete(x) => {
             with_params(&x.with, d, &mut out);
             for w in &x.wheres {
                 expr_params(w, out.at("where"));
             }
+            returning_params(&x.returning, d, &mut out);
             for o in &x.orders {
                 order_params(o, d, out.at("order-by"));
             }
             if let Some(l) = x.limit {
                 out.at("limit").push(PV::U64(l));
             }
-            returning_params(&x.returning, d, &mut out);
         }
     }
     out
